@@ -18,6 +18,17 @@ header as well):
   * constructor arguments of raised exceptions (messages, locations) are not
     evaluated; only the exception class is kept;
   * parameters `key` / `formula` are dropped (any *use* of them is an error).
+
+problog/tasks/mpe.py: SemiringMPEState / SemiringMinPEState (carrier = pair
+(probability, set of literal keys)) are translated the same way with the state
+type `fl N * list Z` (kind 'T'): sets of keys are duplicate-free lists over the
+library coq/theories/C12/ModelPySet.v (`set()`, `{k}`, `a | b`, `==`), `a[0]` /
+`a[1]` are the projections, the `key` parameter of pos_value / neg_value /
+ad_complement is an integer (its default None is not modelled), tuple `==` is
+component-wise (the identity shortcut of Python's tuple comparison, visible
+only on NaN, is not modelled), `sum([...])` is the left fold of `+` from 0.
+The inherited `value` returns a bare float there (it is `float(a)`), which the
+per-class signature table records.
 """
 import ast
 import os
@@ -59,6 +70,30 @@ SIG = {
     "ad_negate": (["C", "C"], "C"),
 }
 ORDER = list(SIG)   # callees before callers; checked while translating
+# concrete types: F float, S string, T state (float * set of keys), Z integer key, ZS set of keys,
+# LF list of floats, B bool, K dropped, L list of carrier, P pair of carriers, M bound method
+# signature overrides of the state semirings (everything else: C/E -> T)
+SIG_STATE = {
+    "value": (["F"], "F"),              # inherited float(a): NOT a state
+    "pos_value": (["F", "Z"], "T"),
+    "neg_value": (["F", "Z"], "T"),
+    "ad_complement": (["L", "Z"], "T"),
+}
+STATE_CLASSES = [
+    ("SemiringMPEState", "mpe"),
+    ("SemiringMinPEState", "minpe"),
+]
+
+
+def class_sig(kind):
+    out = {}
+    for name, (ptypes, rty) in SIG.items():
+        if kind == "T" and name in SIG_STATE:
+            out[name] = (list(SIG_STATE[name][0]), SIG_STATE[name][1])
+        else:
+            m = lambda t: kind if t in ("C", "E") else t   # noqa
+            out[name] = ([m(t) for t in ptypes], m(rty))
+    return out
 SKIP = {
     "create": "classmethod constructor used by sub-queries; no weight semantics",
     "to_evidence": "evidence weights are outside C12/C30",
@@ -87,11 +122,10 @@ class GenericSubclass(Semiring):
 
 
 def coq_type(t, kind):
-    base = {"F": "(fl N)", "S": "string"}[kind]
-    if t in ("C", "E"):
-        return base
-    if t == "B":
-        return "bool"
+    prim = {"F": "(fl N)", "S": "string", "T": "(fl N * list Z)", "Z": "Z", "B": "bool"}
+    if t in prim:
+        return prim[t]
+    base = prim[kind]
     if t == "L":
         return "(list %s)" % base
     if t == "P":
@@ -165,7 +199,8 @@ class MethodTranslator:
         # whether a body happens to use it
         self.extra = [("N", "NumOps")] + list(extra)
         self.p = cls_prefix
-        self.kind = kind              # 'F' or 'S'
+        self.kind = kind              # 'F', 'S' or 'T'
+        self.sig = class_sig(kind)    # method -> (concrete parameter types, concrete result type)
         self.chain = chain            # MRO list of ClassInfo
         self.emitted = emitted        # methods of this class already emitted (callable)
         self.globals = globals_       # Name -> (coq term, type)
@@ -198,6 +233,12 @@ class MethodTranslator:
         if ty == "M":
             return term
         raise TranslationError("cannot compare a value of type %s" % ty)
+
+    def int_or_expr(self, e, env):
+        """operand of a comparison: additionally accepts an int literal (compared numerically with a float)"""
+        if isinstance(e, ast.Constant) and isinstance(e.value, int) and not isinstance(e.value, bool):
+            return [], lit(e.value), "F"
+        return self.expr(e, env)
 
     # ---- expressions: returns (binds, term, type); binds = [(var, monadic term)]
     def expr(self, e, env):
@@ -236,6 +277,8 @@ class MethodTranslator:
                 if isinstance(e.operand, ast.Constant) and isinstance(e.operand.value, float):
                     return [], lit(-e.operand.value), "F"
                 b, t, ty = self.expr(e.operand, env)
+                if ty == "Z":
+                    return b, "(Z.opp %s)" % t, "Z"
                 if ty != "F":
                     fail(e, "unary minus on non-float")
                 return b, "(fl_neg N %s)" % t, "F"
@@ -250,6 +293,10 @@ class MethodTranslator:
                 return self.fmt(e, env)
             b1, t1, ty1 = self.expr(e.left, env)
             b2, t2, ty2 = self.expr(e.right, env)
+            if isinstance(e.op, ast.BitOr):
+                if ty1 != "ZS" or ty2 != "ZS":
+                    fail(e, "| on non-sets")
+                return b1 + b2, "(zs_union %s %s)" % (t1, t2), "ZS"
             if ty1 != "F" or ty2 != "F":
                 fail(e, "arithmetic on non-floats")
             if isinstance(e.op, ast.Add):
@@ -285,9 +332,38 @@ class MethodTranslator:
                 fail(e, "only pairs")
             b1, t1, ty1 = self.expr(e.elts[0], env)
             b2, t2, ty2 = self.expr(e.elts[1], env)
+            if self.kind == "T" and ty1 == "F" and ty2 == "ZS":
+                return b1 + b2, "(%s, %s)" % (t1, t2), "T"      # a state: (probability, set of keys)
             if ty1 != self.kind or ty2 != self.kind:
                 fail(e, "pair of non-carrier values")
             return b1 + b2, "(%s, %s)" % (t1, t2), "P"
+        if isinstance(e, ast.Subscript):
+            # a[0] / a[1] of a state
+            b, t, ty = self.expr(e.value, env)
+            if ty != "T" or not (isinstance(e.slice, ast.Constant) and type(e.slice.value) is int and e.slice.value in (0, 1)):
+                fail(e, "subscript other than state[0] / state[1]")
+            return (b, "(fst %s)" % t, "F") if e.slice.value == 0 else (b, "(snd %s)" % t, "ZS")
+        if isinstance(e, ast.Set):
+            if len(e.elts) != 1:
+                fail(e, "only singleton set displays")
+            b, t, ty = self.expr(e.elts[0], env)
+            if ty != "Z":
+                fail(e, "set display of a non-key")
+            return b, "(zs_single %s)" % t, "ZS"
+        if isinstance(e, ast.ListComp):
+            # [elt(x) for x in ws] over a list of carriers, float-valued and effect-free
+            if len(e.generators) != 1:
+                fail(e, "list comprehension with several generators")
+            g = e.generators[0]
+            if g.ifs or g.is_async or not isinstance(g.target, ast.Name) or not isinstance(g.iter, ast.Name) \
+                    or env.get(g.iter.id) != "L":
+                fail(e, "list comprehension shape")
+            env2 = dict(env)
+            env2[g.target.id] = self.kind
+            b, t, ty = self.expr(e.elt, env2)
+            if b or ty != "F":
+                fail(e, "list comprehension element must be an effect-free float")
+            return [], "(map (fun %s => %s) %s)" % (coq_ident(g.target.id), t, coq_ident(g.iter.id)), "LF"
         if isinstance(e, ast.Call):
             return self.call(e, env)
         fail(e, "expression")
@@ -321,7 +397,7 @@ class MethodTranslator:
             fail(e, "comparison chain longer than 2")
         if len(operands) == 3 and not isinstance(operands[1], (ast.Name, ast.Constant)):
             fail(e, "chained comparison with a non-atomic middle operand")
-        tr = [self.expr(o, env) for o in operands]
+        tr = [self.int_or_expr(o, env) for o in operands]
         # a op b evaluates a then b (no short circuit); in a op b op c the third
         # operand is only evaluated when a op b holds
         if len(tr) == 3 and tr[2][0]:
@@ -333,6 +409,12 @@ class MethodTranslator:
             if isinstance(op, ast.Eq):
                 if "M" not in (ty1, ty2) and ty1 != ty2:
                     fail(e, "== between different static types")
+                if ty1 == "T" and ty2 == "T":
+                    parts.append("(st_eqb N %s %s)" % (t1, t2))     # tuple ==: component-wise
+                    continue
+                if "T" in (ty1, ty2):
+                    parts.append("false")                           # a tuple never equals a bound method object
+                    continue
                 parts.append("(py_eqb N %s %s)" % (self.inj(t1, ty1), self.inj(t2, ty2)))
                 continue
             if ty1 != "F" or ty2 != "F":
@@ -368,6 +450,13 @@ class MethodTranslator:
                 fail(e, "float() of a non-float")
             v = self.new()
             return b + [(v, "py_float N %s" % t)], v, "F"
+        if isinstance(f, ast.Name) and f.id == "set" and not e.args:
+            return [], "zs_empty", "ZS"
+        if isinstance(f, ast.Name) and f.id == "sum" and len(e.args) == 1:
+            b, t, ty = self.expr(e.args[0], env)
+            if ty != "LF":
+                fail(e, "sum of something that is not a list of floats")
+            return b, "(fl_sum N %s)" % t, "F"
         if isinstance(f, ast.Name) and f.id == "str" and len(e.args) == 1:
             b, t, ty = self.expr(e.args[0], env)
             if ty != "S":
@@ -389,7 +478,7 @@ class MethodTranslator:
                 fail(e, "call of a method outside the interface table")
             if name not in self.emitted:
                 fail(e, "call of %s before its definition (ORDER)" % name)
-            ptypes, rty = SIG[name]
+            ptypes, rty = self.sig[name]
             binds, args = [], []
             if len(e.args) > len(ptypes):
                 fail(e, "too many arguments")
@@ -397,7 +486,7 @@ class MethodTranslator:
                 if pt == "K":
                     continue   # dropped parameter: the argument expression is not evaluated
                 b, t, ty = self.expr(a, env)
-                want = self.kind if pt in ("C", "E") else pt
+                want = pt
                 if ty != want:
                     fail(e, "argument type %s where %s is expected" % (ty, want))
                 binds += b
@@ -406,7 +495,7 @@ class MethodTranslator:
             if len(args) != len(need):
                 fail(e, "missing arguments")
             v = self.new()
-            rt = self.kind if rty in ("C", "E") else rty
+            rt = rty
             return binds + [(v, " ".join(["%s_%s" % (self.p, name)] + [x for x, _ in self.extra] + args))], v, rt
         fail(e, "call")
 
@@ -499,7 +588,7 @@ class MethodTranslator:
         cls, fn = self.find_method(name)
         if fn is None:
             raise TranslationError("method %s not found in MRO of %s" % (name, self.chain[0].name))
-        ptypes, rty = SIG[name]
+        ptypes, rty = self.sig[name]
         a = fn.args
         if a.vararg or a.kwarg or a.kwonlyargs or a.posonlyargs or fn.decorator_list:
             fail(fn, "signature")
@@ -509,17 +598,17 @@ class MethodTranslator:
         ndef = len(a.defaults)
         for i, d in enumerate(a.defaults):
             pt = ptypes[len(ptypes) - ndef + i]
-            if pt != "K" or not (isinstance(d, ast.Constant) and d.value is None):
-                fail(fn, "default value on a non-dropped parameter")
+            if pt not in ("K", "Z") or not (isinstance(d, ast.Constant) and d.value is None):
+                fail(fn, "default value on a parameter that is neither dropped nor a key")
         env, sig = {}, ["(%s : %s)" % x for x in self.extra]
         for pn, pt in zip(params[1:], ptypes):
             if pt == "K":
                 env[pn] = "K"
                 continue
-            env[pn] = self.kind if pt in ("C", "E") else pt
+            env[pn] = pt
             sig.append("(%s : %s)" % (coq_ident(pn), coq_type(pt, self.kind)))
         self.fresh = 0
-        want = self.kind if rty in ("C", "E") else rty
+        want = rty
         body = self.block(fn.body, env, want)
         head = "Definition %s_%s %s : res %s :=" % (self.p, name, " ".join(sig), coq_type(rty, self.kind))
         src = "(* %s.%s, defined in class %s, lines %d-%d *)" % (self.chain[0].name, name, cls.name, fn.lineno, fn.end_lineno)
@@ -538,10 +627,16 @@ HEADER = """(* GENERATED by gen/c12_semiring.py from %(path)s (sha1 %(sha)s) - d
    on evaluated values; exception arguments are not evaluated; `key`/`formula`
    parameters are dropped.  Skipped methods: %(skipped)s *)
 From Coq Require Import ZArith String List Bool.
-From PL.C12 Require Import ModelPy.
+From PL.C12 Require Import ModelPy ModelPySet.
 Import ListNotations.
 Local Open Scope string_scope.
 
+"""
+
+HEADER_STATE = """(* ===== %(path)s (sha1 %(sha)s): state semirings, carrier = (probability, set of literal keys)
+   = fl N * list Z over ModelPySet.v.  `key` is an integer (default None not modelled); tuple == is
+   component-wise (identity shortcut on NaN not modelled); sum([...]) is the left fold of + from 0;
+   the inherited value() is float(a), a bare float. ===== *)
 """
 
 
@@ -590,6 +685,37 @@ def translate(repo):
         out.append(mt.method(m))
         emitted.add(m)
         index.append(("generic", m, mt.find_method(m)[0].name))
+    # state semirings of problog/tasks/mpe.py
+    mpath = os.path.join(repo, "problog", "tasks", "mpe.py")
+    with open(mpath) as f:
+        msrc = f.read()
+    mtree = ast.parse(msrc)
+    imported = False
+    for st in mtree.body:
+        if isinstance(st, ast.ImportFrom) and (st.module, st.level) in (("problog.evaluator", 0), ("evaluator", 2)) \
+                and any(a.name == "Semiring" and a.asname is None for a in st.names):
+            imported = True
+        if isinstance(st, ast.ClassDef) and st.name in ("Semiring",) + tuple(c for c, _ in STATE_CLASSES):
+            if st.name == "Semiring":
+                fail(st, "mpe.py redefines Semiring")
+            classes[st.name] = ClassInfo(st, classes)
+    if not imported:
+        raise TranslationError("problog/tasks/mpe.py does not import Semiring from problog.evaluator")
+    out.append(HEADER_STATE % {"path": "problog/tasks/mpe.py", "sha": hashlib.sha1(msrc.encode()).hexdigest()[:12]})
+    for pyname, prefix in STATE_CLASSES:
+        if pyname not in classes:
+            raise TranslationError("class %s not found in problog/tasks/mpe.py" % pyname)
+        for m in classes[pyname].methods:
+            if m not in SIG and m not in SKIP:
+                raise TranslationError("method %s.%s is neither in the interface table nor in the skip list" % (pyname, m))
+        chain = mro(classes, pyname)
+        out.append("(* ===== class %s : MRO %s ===== *)" % (pyname, " -> ".join(c.name for c in chain)))
+        emitted = set()
+        mt = MethodTranslator(prefix, "T", chain, emitted, {})
+        for m in ORDER:
+            out.append(mt.method(m))
+            emitted.add(m)
+            index.append((prefix, m, mt.find_method(m)[0].name))
     out.append("(* resolution table (class prefix, method, defining class):\n%s *)\n"
                % "\n".join("   %s %s %s" % t for t in index))
     return "\n".join(out), index
